@@ -60,15 +60,12 @@ DmaAlloc(seq, pa, pages) ==
   /\ dma' = (seq :> [pa |-> pa, pages |-> pages]) @@ dma
   /\ newDma' = IF call # None THEN [seq |-> seq, pa |-> pa, pages |-> pages] ELSE newDma
   /\ U(<<ccfg, call, cmds, txs, fb, rect, attached, errSeen, devReset, sndUp, params, txOut, nbs, nbq>>)
-\* backing memory stays allocated for as long as it is attached to a device resource
-DmaDealloc(seq) ==
-  /\ seq \in DOMAIN dma
-  /\ (~errSeen /\ ~devReset) => \A rid \in DOMAIN attached : attached[rid] # seq
-  /\ dma' = [s \in DOMAIN dma \ {seq} |-> dma[s]]
-  /\ U(<<ccfg, call, cmds, txs, newDma, fb, rect, attached, errSeen, devReset, sndUp, params, txOut, nbs, nbq>>)
 DeviceReset == /\ devReset' = TRUE /\ attached' = <<>>
                /\ U(<<ccfg, call, cmds, txs, newDma, fb, rect, dma, errSeen, sndUp, params, txOut, nbs, nbq>>)
-StatusWrite(v) == IF v = 0 THEN DeviceReset ELSE U(cvars)
+\* (the reset at the start of construction does not exempt what the driver does afterwards)
+StatusWrite(v) == IF v = 0 THEN DeviceReset
+                  ELSE /\ devReset' = FALSE
+                       /\ U(<<ccfg, call, cmds, txs, newDma, fb, rect, attached, dma, errSeen, sndUp, params, txOut, nbs, nbq>>)
 
 \* =========================================================================== entropy, 9P, clock
 RngRet(r) == /\ Len(cmds) = 1 /\ cmds[1].rl = <<>> /\ cmds[1].wl = <<call.n>>
@@ -162,6 +159,15 @@ Apply(att, cs) ==
        ELSE IF c.type = 262 THEN Apply((c.res :> newDma.seq) @@ att, Tail(cs))
        ELSE IF c.type \in {263, 258} THEN Apply([x \in DOMAIN att \ {c.res} |-> att[x]], Tail(cs))
        ELSE Apply(att, Tail(cs))
+
+\* backing memory stays allocated for as long as it is attached to a device resource
+DmaDealloc(seq) ==
+  /\ seq \in DOMAIN dma
+  \* (inside a call: as far as the device has been told by the commands of this call so far)
+  /\ LET att == IF call # None /\ ccfg.kind = "gpu" THEN Apply(attached, cmds) ELSE attached IN
+     (~errSeen /\ ~devReset /\ (call # None => AllOk)) => \A rid \in DOMAIN att : att[rid] # seq
+  /\ dma' = [s \in DOMAIN dma \ {seq} |-> dma[s]]
+  /\ U(<<ccfg, call, cmds, txs, newDma, fb, rect, attached, errSeen, devReset, sndUp, params, txOut, nbs, nbq>>)
 
 GpuRet(r) ==
   LET plan == GpuPlan IN
